@@ -143,6 +143,7 @@ def generate(run_seed, tier):
         # a persisted collection is named after its *data*; downstream of a disk shuffle the row order inside partitions
         # follows the task order, which follows the uuid-bearing helper keys (listed finding F2) - not a naming question
         g.allow_persist = False
+        g.allow_partition_size = True
         recipe = g.generate(n_targets=1)
         if recipe is None or not recipe["targets"]:
             return None
